@@ -17,7 +17,13 @@ RULE = ('every public op / nn op / loss (every reduction) / scalar-operator form
         '(values are not compared here). The accept / reject boundary of the shape checks that guard gradients and targets: upstream gradients handed to backward(), '
         '`.grad = ...` assignments and loss targets (mse_loss; the broadcasting BCE pair) whose shape is the tensor\'s or one of its neighbours (1-axes appended / prepended / inserted, '
         'prefix / suffix, 0-d against (1,), one extent off, broadcast-compatible either way, same size) on leaves and op results of every rank incl. 0-d, dtype and shape of every buffer queried after every call. Implementation-only: the float32 result agrees with the float64 result to single '
-        'precision. Non-trivial: accepted op with a differentiable operand; counts 0-d results separately.')
+        'precision — also with every operand at the EDGES of the domain of the op (exact zeros of either sign, denormals, the smallest normal, values below and around every '
+        'epsilon guard, the largest float32 below 1) for log / sqrt / exp / pow / division / reductions / activations / softmax family / every loss / batch-norm with a '
+        'constant channel, values and gradients compared element by element with the float32 rounding of the float64 run. Every nn layer / loss class under EVERY option '
+        'value incl. the boundary ones (Dropout p in {0, .25, .5, 1-2^-24, 1}; BatchNorm momentum None / 0 / .1 / 1 x eps 0 / 1e-5 / 1 x affine x running statistics; '
+        'LeakyReLU slope 0 / 1 / 2 / negative; pools, convolutions, Unfold / Fold with kernel = input size, stride > kernel, padding, dilation; Linear 1x1 / without bias / '
+        '1-d input; Flatten over every dim pair; every reduction) x both dtypes, the one object called in train and eval mode in a drawn order: dtype and shape of the '
+        'result, of a reduction on it, of every gradient (upstream of the other dtype), parameters and buffers. Non-trivial: accepted op with a differentiable operand; counts 0-d results separately.')
 EXHAUSTIVE = {'quick': False, 'thorough': False}
 ASSUMPTIONS = ['the float32-vs-float64 agreement clause is observed (rel 2e-4 of the value scale), not proved']
 TRUSTED_BASE = ['harness/tprog.py, harness/gen_ops.py']
@@ -405,6 +411,216 @@ def scalar_leaf_case(rng, dt, first=None):
     return {'kind': 'scalar-leaf', 'op': 'accumulating 0-d leaf', 'dt': dt, 'gdt': 'mixed', 'nout': 1, 'zero_d': True, 'lines': lines}
 
 
+# ---- float32 against float64 at the EDGES of every op's domain (implementation side) ---------------------------------------------
+F32 = lambda v: float(np.float32(v))
+# exact zeros, the smallest denormal, a denormal, the smallest normal of float32, values below every epsilon guard of the library
+# (1e-12 in log / BCE, 1e-5 in batch-norm), around them, the largest float32 below 1, and a few ordinary values
+EDGE_VALUES = [0.0, -0.0, F32(1.4e-45), F32(1e-40), F32(1.1754944e-38), F32(1e-30), F32(1e-20), F32(1e-13), F32(1e-12), F32(2e-12), F32(1e-7), F32(1e-5),
+               F32(1.0 - 2.0 ** -24), 1.0, 0.5, 2.0]
+EDGE_OPS = ['log', 'log of relu', 'sqrt', 'exp of -x', 'pow 0.5', 'pow 2', 'pow -1', 'pow 0', 'rpow 2', '1 / x', 'x / x', 'x / tiny tensor', 'x * x', 'sum', 'mean', 'max', 'min',
+            'sigmoid', 'tanh', 'relu', 'leaky_relu', 'selu', 'softmax', 'log_softmax', 'log of softmax', 'binary_cross_entropy y=1', 'binary_cross_entropy y=0', 'BCELoss mean',
+            'binary_cross_entropy_with_logits', 'mse_loss', 'cross_entropy', 'nll_loss of log', 'batch_norm constant channel']
+
+
+def edge_case(rng, op, tier):
+    """ONE op over ALL edge values (both signs where the op takes them), in a drawn order, next to a few ordinary values; run on float32 and on
+    float64 operands holding the same numbers; forward values and the gradient of sum(out) are compared element by element"""
+    vals = list(EDGE_VALUES) + [F32(rng.uniform(0.1, 3.0)) for _ in range(2)]
+    vals = rng.sample(vals, len(vals))
+    return {'kind': 'edge', 'op': op, 'dt': 'f32', 'gdt': 'f32', 'nout': 1, 'zero_d': False, 'vals': vals, 'lines': ['t modes']}
+
+
+def _edge_fn(sg, nn, op, T, vals):
+    """-> (result tensor, leaves)"""
+    x = T(vals)
+    neg = T([-v for v in vals])
+    sym = T(vals + [-v for v in vals])
+    U = lambda f, a=x: (f(a), [a])
+    n = len(vals)
+    if op == 'log': return U(lambda a: a.log())
+    if op == 'log of relu': return U(lambda a: sg.relu(a).log(), sym)
+    if op == 'sqrt': return U(lambda a: a.sqrt())
+    if op == 'exp of -x': return U(lambda a: sg.exp(a), T([-v for v in vals] + [-87.0, -88.0, -100.0, -103.0, -104.0, -110.0]))
+    if op.startswith('pow '): return U(lambda a: a ** float(op[4:]))
+    if op == 'rpow 2': return U(lambda a: 2.0 ** a, sym)
+    if op == '1 / x': return U(lambda a: 1.0 / a)
+    if op == 'x / x': return U(lambda a: a / a)
+    if op == 'x / tiny tensor':
+        a, b = T([1.0] * n + list(vals)), T(list(vals) + list(reversed(vals)))
+        return a / b, [a, b]
+    if op == 'x * x': return U(lambda a: a * a, sym)
+    if op in ('sum', 'mean'): return U(lambda a: getattr(a, op)(), sym)
+    if op in ('max', 'min'): return U(lambda a: getattr(a.reshape((2, n)), op)(dim=0), sym)
+    if op in ('sigmoid', 'tanh', 'relu', 'selu'): return U(lambda a: getattr(sg, op)(a), sym)
+    if op == 'leaky_relu': return U(lambda a: sg.leaky_relu(a, 0.01), sym)
+    if op in ('softmax', 'log_softmax'): return U(lambda a: getattr(sg, op)(a.reshape((2, n)), 1), sym)
+    if op == 'log of softmax': return U(lambda a: sg.softmax(a.reshape((2, n)) * 40.0, 1).log(), sym)      # (probabilities down to exact zeros in float32)
+    if op.startswith('binary_cross_entropy y='):
+        y = sg.Tensor(np.full(n, float(op[-1]), dtype=x.data.dtype))
+        return sg.binary_cross_entropy(x, y), [x]
+    if op == 'BCELoss mean':
+        p_ = T(list(vals) + list(vals))
+        y = sg.Tensor(np.array([0.0] * n + [1.0] * n, dtype=x.data.dtype))
+        return nn.BCELoss()(p_, y), [p_]
+    if op == 'binary_cross_entropy_with_logits':
+        a = T(list(vals) + [-v for v in vals])
+        y = sg.Tensor(np.array([1.0, 0.0] * n, dtype=x.data.dtype))
+        return sg.binary_cross_entropy_with_logits(a, y), [a]
+    if op == 'mse_loss': return sg.mse_loss(sym, sg.Tensor(np.zeros(2 * n, dtype=x.data.dtype))), [sym]
+    if op == 'cross_entropy':
+        a = sym.reshape((n, 2)) if False else T(vals + [-v for v in vals])
+        return sg.cross_entropy(a.reshape((n, 2)), sg.Tensor(np.arange(n) % 2, dtype=np.int32)), [a]
+    if op == 'nll_loss of log':
+        return sg.nll_loss(x.reshape((n // 2, 2)).log(), sg.Tensor(np.arange(n // 2) % 2, dtype=np.int32)), [x]
+    if op.startswith('batch_norm'):
+        eps = 1e-5 if 'constant' in op else 1e-12
+        a = T([vals[j % n] for j in range(4)] * 3 + list(vals[:12]))          # channel 0 .. : constant columns (variance exactly 0) next to edge values
+        a2 = a.reshape((2, 12)).transpose(0, 1) if False else a
+        xx = T(sum([[vals[c], vals[c + 3] if c >= 3 else vals[c]] for c in range(6)], []))       # 6 channels x 2 rows, channels 0-2 constant
+        xr = xx.reshape((6, 2)).transpose(0, 1)
+        return sg.batch_norm(xr, None, None, None, None, True, 0.1, eps), [xx]
+    raise KeyError(op)
+
+
+def _edge(c):
+    """None, or (class, description) of the first element on which the float32 run is not the float32 rounding of the float64 run"""
+    sg = common.impl()
+    from synapgrad import nn
+    res = {}
+    with np.errstate(all='ignore'):
+        for dtn in ('f32', 'f64'):
+            dt = tprog.DT[dtn]
+            T = lambda v, dt=dt: sg.Tensor(np.array(v, dtype=np.float64).astype(dt), requires_grad=True)
+            out, leaves = _edge_fn(sg, nn, c['op'], T, list(c['vals']))
+            if out.data.dtype != dt: return 'result-dtype', f"{c['op']} at the edge values on {dtn} operands returned {out.data.dtype}"
+            out.backward(sg.Tensor(np.ones(out.shape, dtype=dt)))
+            for lf in leaves:
+                if lf._grad is None or lf._grad.dtype != dt or lf._grad.shape != lf.data.shape:
+                    return 'grad-dtype-shape', f"{c['op']} at the edge values on {dtn} operands: gradient buffer {None if lf._grad is None else (lf._grad.dtype, lf._grad.shape)}"
+            res[dtn] = [np.array(out.data, dtype=np.float64)] + [np.array(lf._grad, dtype=np.float64) for lf in leaves] + [np.array(lf.data, dtype=np.float64) for lf in leaves]
+        nl = (len(res['f32']) - 1) // 2
+        known = None
+        for k, (a, b) in enumerate(zip(res['f32'][:1 + nl], res['f64'][:1 + nl])):
+            if a.shape != b.shape: return 'f32-f64-agreement', f"{c['op']}: shapes {a.shape} vs {b.shape}"
+            b32 = b.astype(np.float32).astype(np.float64)          # the float32 rounding of the float64 result (overflow -> inf, underflow -> 0)
+            ok = (np.isnan(a) & np.isnan(b32)) | (a == b32) | (np.abs(a - b32) <= 2e-4 * np.maximum(1.0, np.abs(b32)))
+            for j in np.flatnonzero(~ok.ravel()):
+                j = int(j)
+                what = 'result' if k == 0 else f'gradient of operand {k - 1}'
+                at_vals = [float(d.ravel()[j]) for d in res['f64'][1 + nl:] if d.size == a.size]
+                at = f' (operand value(s) {at_vals})' if at_vals else ''
+                cls = 'f32-f64-agreement'
+                av, bv = float(a.ravel()[j]), float(b.ravel()[j])
+                if c['op'].startswith(('binary_cross_entropy y=', 'BCELoss')) and k == 0 and av == 100.0 and abs(bv + np.log(1e-12)) < 1e-3 \
+                        and any(0 < abs(v) < 1e-19 for v in at_vals):
+                    # known finding: the clamp is an EQUALITY test with the level -log(eps); for 0 < p < ~6e-20, p + 1e-12 rounds to 1e-12 in float32 (the
+                    # clamp fires: 100) and not in float64 (27.631).  At p == 0 both dtypes give 100 since fix 2 of the ledger (before it float32 never clamped).
+                    cls = 'f32-f64-agreement-bce-clamp-level'
+                elif c['op'] in ('x / x', 'x / tiny tensor', '1 / x', 'pow 0', 'pow -1', 'pow 0.5') and any(0 < abs(v) < 5.5e-20 for v in at_vals):
+                    # known finding: a / b is a * b**-1, its gradient goes through b**-2 and that of a**n through a**(n-1): for |b| < 2.9e-39 (values) /
+                    # 5.4e-20 (gradients) the reciprocal leaves float32's range although the quotient / gradient itself is representable
+                    cls = 'f32-f64-agreement-reciprocal-out-of-range'
+                msg = f"{c['op']}: {what}, element {j}{at}: float32 gives {float(a.ravel()[j])!r}, float64 gives {float(b.ravel()[j])!r}"
+                if cls == 'f32-f64-agreement': return cls, msg
+                known = known or (cls, msg)
+        return known
+    return None
+
+
+# ---- every nn layer under every option value, boundary values included, x both dtypes x train / eval (implementation side) --------
+def layer_options():
+    """(layer name, constructor arguments as a printable tuple, input shape)"""
+    out = []
+    for p_ in (0.0, 0.25, 0.5, 1.0 - 2.0 ** -24, 1.0): out.append(('Dropout', (p_,), (4, 3)))
+    for mo in (None, 0.0, 0.1, 1.0):
+        for eps in (0.0, 1e-5, 1.0):
+            for affine in (False, True):
+                for track in (False, True):
+                    out.append(('BatchNorm1d', (eps, mo, affine, track), (4, 3)))
+                    if mo in (None, 1.0) or eps == 0.0: out.append(('BatchNorm2d', (eps, mo, affine, track), (3, 2, 2, 2)))
+        out.append(('BatchNorm1d', (1e-5, mo, True, True), (2, 3, 4)))
+    for sl in (0.0, 0.01, 1.0, 2.0, -1.0): out.append(('LeakyReLU', (sl,), (3, 2)))
+    for name in ('ReLU', 'SELU', 'Tanh', 'Sigmoid'): out += [(name, (), (3, 2)), (name, (), ())]
+    for name in ('Softmax', 'LogSoftmax'):
+        for dim in (0, 1, -1): out.append((name, (dim,), (3, 2)))
+        out.append((name, (0,), (4,)))
+    for name in ('MaxPool1d', 'AvgPool1d'):
+        for k, st, pd, dil in ((5, None, 0, 1), (1, 1, 0, 1), (2, 7, 1, 1), (2, 1, 0, 4), (3, 2, 1, 2), (5, 5, 2, 1)):
+            out.append((name, (k, st, pd, dil), (2, 2, 5)))
+    for name in ('MaxPool2d', 'AvgPool2d'):
+        for k, st, pd, dil in (((4, 3), None, 0, 1), (1, 1, 0, 1), (2, (5, 5), 1, 1), ((2, 1), 1, 0, (3, 2)), (3, 2, 1, 1)):
+            out.append((name, (k, st, pd, dil), (2, 2, 4, 3)))
+    for bias in (False, True):
+        for k, st, pd, dil in ((5, 1, 0, 1), (1, 1, 0, 1), (2, 6, 1, 1), (2, 1, 0, 4), (3, 2, 2, 2)):
+            out.append(('Conv1d', (2, 3, k, st, pd, dil, bias), (2, 2, 5)))
+        for k, st, pd, dil in (((4, 3), 1, 0, 1), (1, 1, 0, 1), (2, (5, 4), 1, 1), ((2, 1), 1, 0, (3, 2)), (3, 2, 1, 1)):
+            out.append(('Conv2d', (2, 3, k, st, pd, dil, bias), (2, 2, 4, 3)))
+        for i, o in ((1, 1), (3, 1), (1, 4), (3, 2)):
+            out.append(('Linear', (i, o, bias), (2, i))); out.append(('Linear', (i, o, bias), (1, i)))
+        out.append(('Neuron', (3, bias), (2, 3)))
+    for sd, ed in ((0, -1), (1, -1), (1, 1), (0, 0), (-1, -1), (1, 2)): out.append(('Flatten', (sd, ed), (2, 3, 2)))
+    for k, st, pd, dil, pv in (((4, 3), 1, 0, 1, 0), (1, 1, 0, 1, 0), (2, 1, 1, 1, 0.5), (2, 2, 2, 1, -1), ((2, 1), 1, 0, (3, 2), 0), (2, 1, 1, 1, 7)):
+        out.append(('Unfold', (k, st, pd, dil, pv), (2, 2, 4, 3)))
+    for osz, k, st, pd, dil in (((2, 2), 2, 1, 0, 1), ((3, 3), 2, 1, 0, 1), ((2, 2), 1, 1, 0, 1), ((2, 2), 2, 1, 1, 1), ((3, 3), 2, 1, 0, 2)):
+        L = ((osz[0] + 2 * pd - dil * (k - 1) - 1) // st + 1) * ((osz[1] + 2 * pd - dil * (k - 1) - 1) // st + 1)
+        out.append(('Fold', (osz, k, st, pd, dil), (2, 3 * k * k, L)))
+    for name in ('MSELoss', 'BCELoss', 'BCEWithLogitsLoss', 'NLLLoss', 'CrossEntropyLoss'):
+        for red in ('mean', 'sum', 'none'): out.append((name, (red,), (3, 2)))
+    return out
+
+
+def layeropt_case(rng, spec, dt):
+    name, args, xsh = spec
+    return {'kind': 'layeropt', 'op': f'{name}{args}', 'layer': name, 'args': list(args), 'xsh': list(xsh), 'dt': dt, 'gdt': 'f64' if dt == 'f32' else 'f32', 'nout': 1,
+            'zero_d': False, 'seed': rng.randrange(2 ** 31), 'modes': rng.sample(['train', 'eval', 'train', 'eval'], 4), 'lines': ['t modes']}
+
+
+def _tup(v): return tuple(v) if isinstance(v, list) else v
+
+
+def _layeropt(c):
+    """the layer object built once, called in train and eval mode (in a drawn order, so also again after the other mode) on operands of dtype
+    `dt`: dtype / shape of the result, of a reduction on top of it, of every gradient (upstream gradient of the OTHER dtype), of parameters and
+    buffers afterwards"""
+    sg = common.impl()
+    from synapgrad import nn
+    dt, other = tprog.DT[c['dt']], tprog.DT[c['gdt']]
+    rs = np.random.RandomState(c['seed'])
+    name, a, xsh = c['layer'], [_tup(v) for v in c['args']], tuple(c['xsh'])
+    if name.startswith('BatchNorm'): m = getattr(nn, name)(xsh[1], eps=a[0], momentum=a[1], affine=a[2], track_running_stats=a[3], dtype=dt)
+    elif name == 'Unfold': m = nn.Unfold(a[0], stride=a[1], padding=a[2], dilation=a[3], pad_value=a[4])
+    elif name == 'Fold': m = nn.Fold(a[0], a[1], stride=a[2], padding=a[3], dilation=a[4])
+    elif name.endswith('Loss'): m = getattr(nn, name)(reduction=a[0])
+    else: m = getattr(nn, name)(*a)
+    for p_ in m.parameters():
+        p_.data = p_.data.astype(dt)
+    bufs = {k: v for k, v in vars(m).items() if isinstance(v, sg.Tensor) and not isinstance(v, nn.Parameter)}
+    for mode in c['modes']:
+        m.train() if mode == 'train' else m.eval()
+        tag = f"{name}{tuple(a)} in {mode} mode on a {c['dt']} input of shape {xsh}"
+        data = rs.rand(*xsh) if name == 'BCELoss' else rs.randn(*xsh)
+        x = sg.Tensor(np.asarray(data).astype(dt), requires_grad=True)
+        if name.endswith('Loss'):
+            if name in ('NLLLoss', 'CrossEntropyLoss'): y = sg.Tensor(rs.randint(0, xsh[1], xsh[0]), dtype=np.int32)
+            else: y = sg.Tensor(rs.randint(0, 2, xsh).astype(dt))
+            out = m(x, y)
+        else:
+            out = m(x)
+        if out.data.dtype != dt: return f'{tag}: result dtype {out.data.dtype}'
+        red = out.sum()
+        if red.data.dtype != dt or red.shape != (): return f'{tag}: out.sum() is {red.data.dtype}{red.shape}'
+        out.backward(sg.Tensor(np.ones(out.shape, dtype=other)))
+        if x._grad is None or x._grad.dtype != dt or x._grad.shape != x.data.shape:
+            return f'{tag}: input gradient is {None if x._grad is None else (x._grad.dtype, x._grad.shape)}'
+        for p_ in m.parameters():
+            if p_.data.dtype != dt: return f'{tag}: a parameter became {p_.data.dtype}'
+            if p_._grad is not None and (p_._grad.dtype != dt or p_._grad.shape != p_.data.shape): return f'{tag}: parameter gradient is {p_._grad.dtype}{p_._grad.shape}'
+        for k, v in vars(m).items():
+            if isinstance(v, sg.Tensor) and not isinstance(v, nn.Parameter) and v.data.dtype.kind == 'f' and k in bufs and v.data.dtype != dt:
+                return f'{tag}: buffer {k} became {v.data.dtype}'
+    return None
+
+
 def cases(rng, tier):
     out = []
     reps = 2 if tier == 'quick' else 40
@@ -437,6 +653,13 @@ def cases(rng, tier):
                 out.append(loss_case(rng, dt, gdt))
     for _ in range(12 if tier == 'quick' else 240):
         out.append(mixed_const_case(rng))
+    for _ in range(1 if tier == 'quick' else 10):
+        for op in EDGE_OPS:
+            out.append(edge_case(rng, op, tier))
+    specs = layer_options()
+    for dt in ('f32', 'f64'):
+        for spec in specs:
+            out.append(layeropt_case(rng, spec, dt))
     # corpus: full reduction / element indexing / reduced loss of float64 operands
     for dt in ('f32', 'f64'):
         out.append({'kind': 'op', 'op': 'sum', 'dt': dt, 'gdt': 'f32', 'nout': 1, 'zero_d': True,
@@ -521,6 +744,12 @@ def compare(c, mo, io):
     if c['kind'] == 'big':
         f = common.outcome(lambda: _big(c))
         return [('large input', 'dtype kept', str(f))] if f else []
+    if c['kind'] == 'edge':
+        f = common.outcome(lambda: _edge(c))
+        return [('float32 vs float64 at the edges of the domain', 'agree to single precision', str(f))] if f else []
+    if c['kind'] == 'layeropt':
+        f = common.outcome(lambda: _layeropt(c))
+        return [('layer under one option value', 'dtype and shape kept', str(f))] if f else []
     diffs = []
     for l, m, i in zip(c['lines'], mo, io):
         if l.startswith(('t dtype', 't gdtype')) or l.startswith(('t op', 't sop', 't loss', 't leaf')):
@@ -564,6 +793,12 @@ def distribution(cases):
     for c in cases:
         k = f"{c['kind']}:{c['dt']}/g{c['gdt']}"
         d[k] = d.get(k, 0) + 1
+        if c['kind'] == 'edge':
+            k = f"edge values (zeros, denormals, below every epsilon guard; {len(c['vals'])} values) float32 vs float64: {c['op']}"
+            d[k] = d.get(k, 0) + 1
+        if c['kind'] == 'layeropt':
+            k = f"layer option values x train/eval: {c['layer']}"
+            d[k] = d.get(k, 0) + 1
         for lab in c.get('classes', []):        # shape of the upstream gradient / assigned gradient / loss target relative to the tensor's
             k = f"{c['kind']} shape class {lab}"
             d[k] = d.get(k, 0) + 1
@@ -583,6 +818,15 @@ def oracle(c):
     if c['kind'] == 'big':
         f = common.outcome(lambda: _big(c))
         return {'key': dict(key, cls='large-input-dtype'), 'case': cc, 'what': str(f)} if f else None
+    if c['kind'] == 'edge':
+        f = common.outcome(lambda: _edge(c))
+        if f == 'rejected': return {'key': dict(key, cls='edge-raised'), 'case': cc, 'what': f"{c['op']} raised at the edge values (float32 or float64)"}
+        if f and f[0] != 'f32-f64-agreement' and f[0].startswith('f32-f64-agreement-'): return {'key': {'kind': 'edge', 'cls': f[0]}, 'case': cc, 'what': f[1]}
+        return {'key': dict(key, cls=f[0]), 'case': cc, 'what': f[1]} if f else None
+    if c['kind'] == 'layeropt':
+        f = common.outcome(lambda: _layeropt(c))
+        return {'key': {'kind': c['kind'], 'op': c['layer'], 'cls': 'layer-option-dtype'}, 'case': cc, 'what': str(f)} if f else None
+    if c['op'] == 'mixed-constant': return None      # (two operand dtypes in one program: judged line by line against the model only)
     io = _run(c)
     if 'crashed' in io:
         return {'key': dict(key, cls='interpreter-crash'), 'case': cc,
